@@ -40,8 +40,22 @@ func genC10(r *rand.Rand, kind string) *c10Case {
 	kind, home := homeKind(r, kind)
 	fan := FanSpec{Kind: kind, HomePath: home, NeverStop: true, HasRpm: true, HasEnable: r.Intn(2) == 0, HasPwm: true, SimMin: mn, SimMax: mx}
 	if kind == "hwmon" {
-		if r.Intn(2) == 0 {
+		if part := r.Intn(5); part < 2 {
 			fan.CfgMin, fan.CfgMax = iptr(mn), iptr(mx)
+			fan.ExpMax = iptr(mx)
+		} else if part == 2 {
+			// only the maximum is configured; the minimum and a higher maximum come from the measurement
+			data := map[int]float64{}
+			for p := 0; p <= 255; p++ {
+				if p >= mn {
+					data[p] = 500 + float64(p-mn)*10
+				} else {
+					data[p] = 0
+				}
+			}
+			fan.Measured = data
+			fan.CfgMax = iptr(mx)
+			fan.ExpMax = iptr(mx)
 		} else {
 			data := map[int]float64{}
 			for p := 0; p <= 255; p++ {
@@ -114,6 +128,10 @@ func checkC10(ctx *Ctx, c *c10Case) {
 	U := int(float64(n)*(math.Log(math.Max(sc.PriorRpm, 1))+760)) + 50
 	w.Curve.Val = c.Curve
 	maxPwm := w.Fan.GetMaxPwm()
+	if sc.Fan.ExpMax != nil && maxPwm != *sc.Fan.ExpMax {
+		ctx.Violation("fan-maximum-not-the-configured-one:"+class, fmt.Sprintf("%s: the stalled fan would be pushed up to %d, the configured maximum is %d", describe(sc), maxPwm, *sc.Fan.ExpMax), c)
+		return
+	}
 	pollsSinceZeroOrRaise := -1 // -1: fan not (yet) seen stalled at an unchanged request
 	lastReq, haveReq := 0, false
 	raises := 0
